@@ -1,21 +1,28 @@
 (* C16 — Reconnect retries only connection failures, a bounded number of times.
-   Model: Model/Reconnect.v.  Two layers share the transcription of the Calling arm of
+   Model: Model/Reconnect.v (time in nanoseconds; the tokio timer fires at the first whole
+   millisecond at or after a deadline, [ceil_ms]; every poll of a future has a cooperative
+   budget, Lib/TokioTime.v).  Two layers share the transcription of the Calling arm of
    ReconnectFuture::poll ([after_outcome]) and of the Sleeping arm ([after_sleep]):
+   * [step c inps pf cp]: the futures of any number of requests sharing the published
+     ReconnectState, at poll granularity (Call i / Poll i / Advance d / Complete i /
+     MakeReady i), for ALL event lists, all micro-step bounds [pf] and all cooperative budgets
+     [cp] per poll.  This is the layer the correspondence check runs against the real
+     ReconnectLayer (run_script = step with pf = poll_fuel, cp = COOP = 128).
    * [reconnect_run c inner ready fuel t0]: one request as a function of
        inner k = (time until the result of the k-th inner call is observed, Ok v | Fail e)
-       ready k = (extra wait before call k >= 1 beyond the delay, readiness error if any)
+       ready k = (extra wait before call k >= 1 beyond the end of the delay, readiness error)
      for ALL such streams, all predicates (c.(pred)), all max_attempts (Some m incl. 0, or
      None = unlimited: then the run need not end, hence [fuel]; result None = still
      reconnecting after fuel retries), all policies (c.(policy) : nat -> option Z is
-     delay_for_attempt, None = no delay), retry_on_reconnect on/off.
-     [u32_run fuel]: fewer than 2^32 - 1 retries, so the u32 attempt counter of the code
-     does not overflow (the model counts in nat).
-   * [step]: the futures of any number of requests sharing the published ReconnectState,
-     at poll granularity (Call i / Poll i / Advance d / Complete i / MakeReady i), for ALL
-     event lists.  This is the layer the correspondence check runs against the real
-     ReconnectLayer.  [pf] bounds the micro-steps of one poll.
+     delay_for_attempt in ns, None = no delay), retry_on_reconnect on/off.
+     [u32_run fuel]: fewer than 2^32 - 1 retries, so the saturating u32 attempt counter of the
+     code stays below its ceiling (the model counts in nat).
+   [C16_step_refines_run] ties the layers: whatever the step machine did for a request that
+   has returned is a run of [reconnect_run] on streams read off its log (calls, result and
+   the values written to the published state), so theorems 1-5 speak about what run_script
+   executes.
    Only statements, `exact`, and Print Assumptions. *)
-From TR Require Import Lib.Base Model.Reconnect Proof.Reconnect.
+From TR Require Import Lib.Base Lib.TokioTime Model.Reconnect Proof.Reconnect.
 
 (* at most max_attempts + 1 inner calls when max_attempts = Some m (and then the run ends
    within m retries); unbounded only for None *)
@@ -48,9 +55,11 @@ Theorem C16_retries_only_reconnectable :
 Proof. exact @retries_only_reconnectable_u32. Qed.
 Print Assumptions C16_retries_only_reconnectable.
 
-(* call k+1 starts exactly delay_for_attempt(k+1) (clamped at 0) plus the extra wait after
-   the failure of call k was observed: never earlier than failure + delay, exactly then
-   under prompt polling of a ready service *)
+(* call k+1 starts when the sleep that began when the failure of call k was observed is
+   over — deadline dl = failure + delay_for_attempt(k+1) (clamped at 0), rounded up to a
+   whole millisecond by the timer — plus the extra wait: never earlier than failure + delay
+   (any delay, also below a millisecond), less than a millisecond after dl under prompt
+   polling of a ready service, and exactly at dl when dl is a whole millisecond *)
 Theorem C16_delay_before_retry :
   forall (Res Err : Type) (c : cfg Err) (inner : nat -> Z * outcome Res Err)
          (ready : nat -> Z * option Err) (fuel : nat) (t0 : Z),
@@ -61,9 +70,11 @@ Theorem C16_delay_before_retry :
     (forall l1 c1 c2 l2, calls r = l1 ++ c1 :: c2 :: l2 ->
        c_idx c2 = S (c_idx c1) /\
        exists d, policy c (c_idx c2) = Some d /\
-         c_start c2 = c_end c1 + Z.max 0 d + Z.max 0 (fst (ready (c_idx c2))) /\
+         let dl := c_end c1 + Z.max 0 d in
+         c_start c2 = ceil_ms dl + Z.max 0 (fst (ready (c_idx c2))) /\
          c_start c2 >= c_end c1 + d /\
-         (fst (ready (c_idx c2)) <= 0 -> 0 <= d -> c_start c2 = c_end c1 + d)).
+         (fst (ready (c_idx c2)) <= 0 -> c_start c2 < dl + MS) /\
+         (fst (ready (c_idx c2)) <= 0 -> (exists k, dl = k * MS) -> c_start c2 = dl)).
 Proof. exact @delay_before_retry_u32. Qed.
 Print Assumptions C16_delay_before_retry.
 
@@ -102,7 +113,7 @@ Print Assumptions C16_result.
 (* the values written to the published state, in order: [Disconnected; Reconnecting] for
    each retried failure, then further non-Connected values, and Connected only as the very
    last write, exactly when the future returns Ok (or ConnectionFailedNoRetry, which marks
-   the connection usable for the next request) *)
+   the connection usable for the next request: the code's choice, not the property's) *)
 Theorem C16_state :
   forall (Res Err : Type) (c : cfg Err) (inner : nat -> Z * outcome Res Err)
          (ready : nat -> Z * option Err) (fuel : nat) (t0 : Z),
@@ -117,27 +128,52 @@ Theorem C16_state :
 Proof. exact @state_writes_u32. Qed.
 Print Assumptions C16_state.
 
-(* ---- poll-granular model: any number of requests, any event list ---- *)
+(* ---- the step machine: any number of requests, any event list ---- *)
+
+(* refinement.  In any reachable state, for a request i whose future has returned x: the run
+   of [reconnect_run] (with any fuel covering its retries) on the streams read off its log —
+   outcomes [snd (r_inner ..)] and readiness errors [rdy_err (r_ready ..)] of the wrapped
+   service, observed durations and extra waits — makes exactly the logged calls (same
+   numbers, instants, outcomes), returns x, and writes to the published state exactly the
+   values recorded for request i, in order.  Hence theorems 1-5 hold of what the step
+   machine (and so run_script) does for every request. *)
+Theorem C16_step_refines_run :
+  forall (Res Err : Type) (c : cfg Err) (inps : nat -> rin Res Err) (pf cp : nat)
+         (evs : list ev) (i : nat) (x : Res + rerr Err) (fuel : nat),
+    let s := fold_left (step_st c inps pf cp) evs init in
+    res (reqs s i) = Some x ->
+    let l := log (reqs s i) in
+    (length l - 1 <= fuel)%nat ->
+    let inner := fun k => (w_dur l k, snd (r_inner (inps i) k)) in
+    let ready := fun k => (w_slack c l k, rdy_err (r_ready (inps i) k)) in
+    let r := reconnect_run c inner ready fuel (w_t0 l) in
+    calls r = rev l /\ result r = Some x /\ writes r = writes_of i (wlog s).
+Proof. exact @step_refines_run. Qed.
+Print Assumptions C16_step_refines_run.
 
 (* every request, in every reachable state of every schedule: at most max_attempts + 1
    inner calls started; the log of finished calls is well formed ([wf_log]: consecutive
    call numbers, the wrapped service's outcomes, every call but the newest was a connection
-   failure within max_attempts with a delay, retry_on_reconnect set, and the next call
-   started no earlier than that failure was observed + delay), the same for the call in
-   flight; the future has returned iff it is Done, and what it returned is characterised
-   by [done_spec], variant by variant *)
+   failure within max_attempts with a delay, retry_on_reconnect set, the next call started
+   no earlier than the end of the sleep for that failure, on an instance whose readiness poll
+   did not fail), the same for the call in flight; the future has returned iff it is Done,
+   what it returned is characterised by [done_spec], variant by variant, and what it has
+   written to the published state is [Disconnected; Reconnecting] per observed connection
+   failure it went to sleep on, plus the value that goes with its result *)
 Theorem C16_any_schedule :
-  forall (Res Err : Type) (c : cfg Err) (inps : nat -> rin Res Err) (pf : nat) (evs : list ev),
+  forall (Res Err : Type) (c : cfg Err) (inps : nat -> rin Res Err) (pf cp : nat) (evs : list ev),
     Forall (fun s => forall i,
               let r := reqs s i in
               (forall m, max_attempts c = Some m -> (length (started_calls r) <= m + 1)%nat) /\
               wf_log c (inps i) (log r) /\
               (forall av prev rest, ph r = PCalling av -> log r = prev :: rest ->
                  reconn c prev /\ retry_on_reconnect c = true /\
-                 c_end prev + delay_of c prev <= cur_start r) /\
+                 wake_at c prev <= cur_start r /\ not_rerr (r_ready (inps i) (attempt r))) /\
               (ph r = PDone <-> res r <> None) /\
-              (forall x, res r = Some x -> done_spec c (inps i) (now s) r x))
-           (states (step_st c inps pf) init evs).
+              (forall x, res r = Some x -> done_spec c (inps i) (now s) r x) /\
+              writes_of i (wlog s) =
+                repeat_dr (attempt r) ++ match res r with Some x => tailw x | None => [] end)
+           (states (step_st c inps pf cp) init evs).
 Proof. exact @any_schedule. Qed.
 Print Assumptions C16_any_schedule.
 
@@ -146,30 +182,64 @@ Print Assumptions C16_any_schedule.
    readiness or retries, Disconnected after MaxAttemptsExceeded / ConnectionFailed), and
    Disconnected as long as nobody has written *)
 Theorem C16_state_any_schedule :
-  forall (Res Err : Type) (c : cfg Err) (inps : nat -> rin Res Err) (pf : nat) (evs : list ev),
+  forall (Res Err : Type) (c : cfg Err) (inps : nat -> rin Res Err) (pf cp : nat) (evs : list ev),
     Forall (fun s => match writer s with
                      | None => cs s = Disconnected /\ forall i, pub (reqs s i) = None
                      | Some i => pub (reqs s i) = Some (cs s)
                      end)
-           (states (step_st c inps pf) init evs).
+           (states (step_st c inps pf cp) init evs).
 Proof. exact @state_any. Qed.
 Print Assumptions C16_state_any_schedule.
 
-(* one Poll event in any reachable state: the state right after a poll that returns Ok is
-   Connected; after MaxAttemptsExceeded / ConnectionFailed it is Disconnected; a poll in
-   which the future observed a reconnectable failure (attempt counter grew) leaves the
-   state Reconnecting while the future sleeps / waits for readiness / retries *)
+(* the state clause of the property, for ONE request (event lists that only mention request
+   0): in every reachable state, while the request is handling a connection failure (it
+   sleeps, waits for readiness, or its retry is in flight) the published state is
+   Reconnecting — in particular not Connected —, and once it has returned Ok the state is
+   Connected.  With two requests sharing the state the first half is false
+   (Proof/Reconnect.v Examples.two_requests_connected_while_handling): last writer wins,
+   see C16_state_any_schedule. *)
+Theorem C16_single_request_state :
+  forall (Res Err : Type) (c : cfg Err) (inps : nat -> rin Res Err) (pf cp : nat) (evs : list ev),
+    Forall only0 evs ->
+    Forall (fun s => (handling (reqs s 0) -> cs s = Reconnecting) /\
+                     (forall v, res (reqs s 0) = Some (inl v) -> cs s = Connected) /\
+                     (forall j, j <> 0%nat -> reqs s j = init_rst))
+           (states (step_st c inps pf cp) init evs).
+Proof. exact @single_request_state. Qed.
+Print Assumptions C16_single_request_state.
+
+(* one Poll event in any reachable state, provided the micro-step bound is large enough for
+   the budget (4 * cp + 3 < pf; true of run_script's values, Examples.script_fuel_enough).
+   Progress: a poll returns Pending only when the future really waits (inner call in flight,
+   sleep not over, service not ready), or when the cooperative budget of the poll is used up
+   — then at least cp - 1 sleeps (so cp - 1 reconnection attempts) were completed in this one
+   poll, the future stands at a sleep or at a gated inner call, and it has woken itself (the
+   wake flag is set), so it is polled again.  State: right after a poll that returns Ok the
+   state is Connected; after MaxAttemptsExceeded / ConnectionFailed it is Disconnected; a poll
+   in which the future observed a connection failure (attempt counter grew) leaves the state
+   Reconnecting while the future sleeps / waits for readiness / retries *)
 Theorem C16_poll_event :
-  forall (Res Err : Type) (c : cfg Err) (inps : nat -> rin Res Err) (pf : nat) (evs : list ev)
+  forall (Res Err : Type) (c : cfg Err) (inps : nat -> rin Res Err) (pf cp : nat) (evs : list ev)
          (i : nat),
-    let s := fold_left (step_st c inps pf) evs init in
-    let s' := fst (step c inps pf s (Poll i)) in
-    let o := snd (step c inps pf s (Poll i)) in
+    (4 * cp + 3 < pf)%nat ->
+    let s := fold_left (step_st c inps pf cp) evs init in
+    let s' := fst (step c inps pf cp s (Poll i)) in
+    let o := snd (step c inps pf cp s (Poll i)) in
+    (o_res o = Pending -> o_self o = false -> waiting (inps i) (now s) (reqs s' i)) /\
+    (o_self o = true ->
+       o_res o = Pending /\ woken s' i = true /\
+       (cp <= S (attempt (reqs s' i) - attempt (reqs s i)))%nat /\
+       match ph (reqs s' i) with
+       | PSleeping _ => True
+       | PCalling _ => fst (r_inner (inps i) (attempt (reqs s' i))) = true
+       | _ => False
+       end) /\
     (o_res o = Nothing -> ph (reqs s i) = PDone /\ reqs s' i = reqs s i) /\
     (forall x, o_res o = Ready x ->
        ph (reqs s i) <> PDone /\ ph (reqs s' i) = PDone /\ res (reqs s' i) = Some x /\
        match x with
-       | inl _ | inr (ConnectionFailedNoRetry _) => cs s' = Connected
+       | inl _ => cs s' = Connected
+       | inr (ConnectionFailedNoRetry _) => cs s' = Connected
        | inr (MaxAttemptsExceeded _ _) | inr (ConnectionFailed _) => cs s' = Disconnected
        | inr (ServiceError _) => cs s' = cs s \/ cs s' = Reconnecting
        end) /\
@@ -182,21 +252,21 @@ Theorem C16_poll_event :
 Proof. exact @poll_event. Qed.
 Print Assumptions C16_poll_event.
 
-(* exactness of the delay at poll granularity *)
+(* exactness of the delay at poll granularity (a poll with budget left) *)
 Theorem C16_poll_before_deadline :
-  forall (Res Err : Type) (c : cfg Err) (inp : rin Res Err) (f : nat) (t : Z)
+  forall (Res Err : Type) (c : cfg Err) (inp : rin Res Err) (f k : nat) (t : Z)
          (r : rst Res Err) (dl : Z),
-    ph r = PSleeping dl -> t < dl -> drive c inp (S f) t r = (r, [], Pending).
+    ph r = PSleeping dl -> t < dl -> drive c inp (S f) (S k) t r = (r, [], Pending, false).
 Proof. exact @poll_before_deadline. Qed.
 Print Assumptions C16_poll_before_deadline.
 
 Theorem C16_poll_at_deadline :
-  forall (Res Err : Type) (c : cfg Err) (inp : rin Res Err) (f : nat) (t : Z)
+  forall (Res Err : Type) (c : cfg Err) (inp : rin Res Err) (f k : nat) (t : Z)
          (r : rst Res Err) (dl : Z) (e : Err),
     ph r = PSleeping dl -> dl <= t -> last_error r = Some e -> retry_on_reconnect c = true ->
     r_ready inp (attempt r) = ROk ->
-    drive c inp (S (S f)) t r =
-    drive c inp f t (mkRst (PCalling (negb (fst (r_inner inp (attempt r))))) (attempt r)
-                           (last_error r) t (log r) (res r)).
+    drive c inp (S (S f)) (S k) t r =
+    drive c inp f k t (mkRst (PCalling (negb (fst (r_inner inp (attempt r))))) (attempt r)
+                             (last_error r) t (log r) (res r)).
 Proof. exact @poll_at_deadline. Qed.
 Print Assumptions C16_poll_at_deadline.
